@@ -254,6 +254,12 @@ func CheckC15(e *fw.Env, l *Lab) {
 			b := parseMemo(p2, w, m.Memo)
 			c := parseMemo(p1, w, m.Memo)
 			wtn := map[string]any{"mutation": m.Kind, "site": m.Site, "template": m.Template, "memo": trunc(m.Memo, 1500)}
+			if strings.HasPrefix(m.Kind, "oneof-") {
+				// many parses: the codec resolves oneof members in map iteration order
+				for k := 0; k < 60 && a.same(c); k++ {
+					c = parseMemo(p1, w, m.Memo)
+				}
+			}
 			if !a.same(b) || !a.same(c) {
 				e.Res.Violate(fw.Violation{Property: "C15", Kind: "parsing-not-pure", Detail: fmt.Sprintf("results differ: %v/%s | %v/%s | %v/%s", a.OK, a.Err, b.OK, b.Err, c.OK, c.Err), Witness: wtn})
 				continue
